@@ -25,7 +25,7 @@ package common
 //@ -- ═════════ transaction classes, by shape (what Validate admits for each class) ═════════
 //@ -- A deposit or mint input is the only input (validateDeposit / validateMint: len(Inputs) == 1); a genesis input is the only input
 //@ -- (genesis transactions are built by the node itself, one input each). OnlySpecial states exactly that.
-//@ spec OnlySpecial(tx *Transaction) bool = forall j int :: 0 <= j && j < len(tx.Inputs) && !PlainInput(tx.Inputs[j]) ==> len(tx.Inputs) == 1
+//@ spec OnlySpecial(tx *Transaction) bool = forall j int :: {tx.Inputs[j]} 0 <= j && j < len(tx.Inputs) && !PlainInput(tx.Inputs[j]) ==> len(tx.Inputs) == 1
 //@ spec DepositShape(tx *Transaction) bool = len(tx.Inputs) == 1 && tx.Inputs[0].Mint == nil && tx.Inputs[0].Deposit != nil
 //@ spec MintShape(tx *Transaction) bool = len(tx.Inputs) == 1 && tx.Inputs[0].Mint != nil
 //@ spec GenesisShape(tx *Transaction) bool = len(tx.Inputs) == 1 && tx.Inputs[0].Mint == nil && tx.Inputs[0].Deposit == nil && !isnil(tx.Inputs[0].Genesis)
@@ -59,7 +59,7 @@ package common
 //@   nopanic when forall i int :: 0 <= i && i < len(tx.Outputs) ==> KnownOutType(tx.Outputs[i].Type) -- Validate rejects every other output type
 //@   modifies tx.hash, tx.pmbytes
 //@   ensures [hash] tx.hash.HasValue() && (old(tx.hash.HasValue()) ==> tx.hash == old(tx.hash))
-//@   ensures [by-utxo] forall j int :: {result[j]} 0 <= j && j < len(result) ==> fresh(result[j]) && UtxoOf(result[j], tx)
+//@   ensures [by-utxo] forall j int :: {result[j]} 0 <= j && j < len(result) ==> fresh(result[j]) && allocated(result[j]) && UtxoOf(result[j], tx)
 //@   ensures [ordered] forall a, b int :: 0 <= a && a < b && b < len(result) ==> result[a].Index < result[b].Index
 //@   ensures [by-output] forall i int :: 0 <= i && i < len(tx.Outputs) && Materialised(tx.Outputs[i].Type) ==> exists j int :: 0 <= j && j < len(result) && result[j].Index == i
 //@   loop 0 invariant [stable] tx.Outputs == old(tx.Outputs) && tx.Asset == old(tx.Asset) && tx.hash == hash && forall i int :: {tx.Outputs[i]} 0 <= i && i < len(tx.Outputs) ==> tx.Outputs[i] == old(tx.Outputs[i]) && tx.Outputs[i] != nil &&
